@@ -137,12 +137,14 @@ def identifiers(namespaced=True):
 
 
 def paths(max_depth=4):
-    def build(segs):
-        t = ident(segs[0])
+    def build(p):
+        segs, ns = p
+        t = ident(segs[0], ns or ())
         for s in segs[1:]:
             t = ("path", t, s)
         return t
-    return st.lists(st.sampled_from(SAFE_NAMES), min_size=2, max_size=max_depth).map(build)
+    return st.tuples(st.lists(st.sampled_from(SAFE_NAMES), min_size=2, max_size=max_depth),
+                     st.sampled_from([None, None, None] + NAMESPACES)).map(build)
 
 
 BUILTINS = sorted(spec_tables.FUNCTIONS.items())
@@ -229,7 +231,7 @@ def lambdas(draw, depth, cfg):
     maxd = 4 if cfg.deep_lambda_owner else 2
     d = draw(st.integers(1, maxd))
     segs = draw(st.lists(st.sampled_from(SAFE_NAMES), min_size=d, max_size=d))
-    owner = ident(segs[0])
+    owner = ident(segs[0], draw(st.sampled_from([(), (), (), ("ns",), ("my", "pkg")])))
     for s in segs[1:]:
         owner = ("path", owner, s)
     c = draw(st.integers(0, 9))
